@@ -18,11 +18,13 @@ use serde_json::{json, Value};
 /// prefix pairs, a long name exercising the SysV high-nibble fold.
 fn universe(gnu: bool, n: usize) -> Vec<Vec<u8>> {
     let all: Vec<&[u8]> = if gnu {
-        // djb2: "ab" and "bA" collide (97*33+98 == 98*33+65); "aa"/"ab" differ in bit 0 only
-        vec![b"ab", b"bA", b"aa", b"", b"\xff\xfe", b"a", b"abc", b"memset", b"caf\xc3\xa9", b"zz"]
+        // djb2: "ab" and "bA" collide (97*33+98 == 98*33+65); "aa"/"ab" differ in bit 0 only;
+        // "glidpk"/"glidpl" hash to 0 / 1 (an all-zero chain word), "glidpj" to 0xffffffff
+        vec![b"ab", b"bA", b"aa", b"", b"\xff\xfe", b"a", b"glidpk", b"glidpl", b"abc", b"memset", b"caf\xc3\xa9", b"zz", b"glidpj", b"vkdosa3"]
     } else {
-        // elf_hash: "aq" and "ba" collide (0x61*16+0x71 == 0x62*16+0x61)
-        vec![b"aq", b"ba", b"a", b"", b"\xff\x80", b"aqx", b"longer_name_9", b"memset", b"caf\xc3\xa9", b"zz"]
+        // elf_hash: "aq" and "ba" collide (0x61*16+0x71 == 0x62*16+0x61);
+        // "iiiiia\x8f" hashes to 0x0fffffff (all 28 bits set), "iiiija`" to 0
+        vec![b"aq", b"ba", b"a", b"", b"\xff\x80", b"aqx", b"longer_name_9", b"iiiiia\x8f", b"memset", b"caf\xc3\xa9", b"zz", b"iiiija`", b"iiiiia\x8fx"]
     };
     all.into_iter().take(n).map(|x| x.to_vec()).collect()
 }
@@ -106,6 +108,47 @@ fn crate_find(gnu: bool, enc: Enc, sect: &[u8], symtab: &[u8], strtab: &[u8], na
     })
 }
 
+/// All queries on ONE table object, first in the given order and then in reverse: the answers to a
+/// query must not depend on earlier lookups.
+fn crate_find_batch(gnu: bool, enc: Enc, sect: &[u8], symtab: &[u8], strtab: &[u8], names: &[Vec<u8>]) -> Result<Option<Vec<Result<Option<(usize, bool)>, ()>>>, String> {
+    let e = endian_of(enc);
+    let c = class_of(enc);
+    subject(|| {
+        let syms = SymbolTable::new(e, c, symtab);
+        let strs = StringTable::new(strtab);
+        let one = |r: Result<Option<(usize, elf::symbol::Symbol)>, elf::ParseError>| match r {
+            Err(_) => Err(()),
+            Ok(None) => Ok(None),
+            Ok(Some((i, s))) => Ok(Some((i, syms.get(i).map(|x| x == s).unwrap_or(false)))),
+        };
+        let mut fwd = Vec::new();
+        let mut bwd = Vec::new();
+        if gnu {
+            let t = GnuHashTable::new(e, c, sect).ok()?;
+            for n in names {
+                fwd.push(one(t.find(n, &syms, &strs)));
+            }
+            for n in names.iter().rev() {
+                bwd.push(one(t.find(n, &syms, &strs)));
+            }
+        } else {
+            let t = SysVHashTable::new(e, c, sect).ok()?;
+            for n in names {
+                fwd.push(one(t.find(n, &syms, &strs)));
+            }
+            for n in names.iter().rev() {
+                bwd.push(one(t.find(n, &syms, &strs)));
+            }
+        }
+        bwd.reverse();
+        if fwd != bwd {
+            // signalled as an index that cannot exist
+            return Some(vec![Ok(Some((usize::MAX, false)))]);
+        }
+        Some(fwd)
+    })
+}
+
 pub struct Complete {
     pub gnu: bool,
     pub usize_: usize,
@@ -147,12 +190,28 @@ impl Space for Complete {
         let who = if self.gnu { "GnuHashTable::find" } else { "SysVHashTable::find" };
         let mut dig = Fnv::new();
         let mut found = 0;
-        for q in queries(&u) {
-            out.transitions += 1;
+        let qs = queries(&u);
+        let batch = match crate_find_batch(self.gnu, enc, &b.sect, &b.symtab, &b.strtab, &qs) {
+            Err(m) => {
+                out.violate(format!("panic:{who} in {}", panic_site(&m)), m);
+                return;
+            }
+            Ok(None) => {
+                out.violate(format!("well-formed-table-rejected:{who}"), format!("{} subset {:#b}", enc.name(), d[0]));
+                return;
+            }
+            Ok(Some(v)) => v,
+        };
+        if batch.len() != qs.len() {
+            out.violate(format!("history-dependent:{who}"), format!("{} names {:?}: the answers of a lookup sequence differ from those of the reversed sequence on the same table", enc.name(), b.names.iter().map(|n| String::from_utf8_lossy(n).to_string()).collect::<Vec<_>>()));
+            return;
+        }
+        for (q, res) in qs.into_iter().zip(batch.into_iter()) {
+            out.transitions += 2;
             // ground truth: least hashed index whose name equals the query
             let want = b.names.iter().enumerate().skip(b.first_hashed).find(|(_, n)| **n == q).map(|(i, _)| i);
             let ctx = || format!("{} names {:?} (first hashed index {}) nbucket {} query {:?}", enc.name(), b.names.iter().map(|n| String::from_utf8_lossy(n).to_string()).collect::<Vec<_>>(), b.first_hashed, d[2] + 1, String::from_utf8_lossy(&q));
-            match crate_find(self.gnu, enc, &b.sect, &b.symtab, &b.strtab, &q) {
+            match Ok::<_, String>(Some(res)) {
                 Err(m) => out.violate(format!("panic:{who} in {}", panic_site(&m)), format!("{}: {m}", ctx())),
                 Ok(None) => out.violate(format!("well-formed-table-rejected:{who}"), ctx()),
                 Ok(Some(Err(()))) => out.violate(format!("error-on-well-formed-table:{who}"), ctx()),
@@ -376,6 +435,10 @@ impl Space for HashFn {
         if idx < 17 {
             if idx == 0 {
                 check(b"", out);
+                // names whose (running) hash reaches boundary values: 0, 1, all ones, sign bit
+                for n in [&b"glidpk"[..], b"glidpl", b"glidpj", b"glidpi", b"vkdosa3", b"vkdosa2", b"vkdosa4", b"iiiijaa", b"yiiiip", b"yiiiio", b"iiiija`", b"iiiiia\x8f", b"iiiiia\x8e", b"iiiiia\x8fx", b"iiiiia\x8f\xff", b"iiiiia\x8f\x10", b"glidpkx", b"glidpj\xff"] {
+                    check(n, out);
+                }
                 for a in ALPHA16 {
                     check(&[a], out);
                     for b in ALPHA16 {
@@ -450,10 +513,12 @@ impl Space for BigTables {
             // 70 000 symbols: indexes beyond 2^16
             let enc = ENCS[(idx - 96) as usize];
             let u: Vec<Vec<u8>> = (0..70_000u32).map(|i| format!("s{:x}", i.wrapping_mul(2654435761)).into_bytes()).collect();
-            let b = build_table(self.gnu, enc, &u, u64::MAX, 1, 1021, 64, 6);
             let who = if self.gnu { "GnuHashTable::find" } else { "SysVHashTable::find" };
             let mut dig = Fnv::new();
-            for i in [1usize, 255, 256, 257, 65_535, 65_536, 65_537, 69_999, 70_000] {
+            // nbucket 1021: short chains and indexes beyond 2^16; nbucket 3: chains of > 20 000 symbols
+            for nb in [1021usize, 3] {
+            let b = build_table(self.gnu, enc, &u, u64::MAX, 1, nb, 64, 6);
+            for i in [1usize, 255, 256, 257, 1023, 1024, 1025, 4097, 65_535, 65_536, 65_537, 69_999, 70_000] {
                 let q = match b.names.get(i) {
                     Some(q) => q.clone(),
                     None => continue,
@@ -463,10 +528,11 @@ impl Space for BigTables {
                 match crate_find(self.gnu, enc, &b.sect, &b.symtab, &b.strtab, &q) {
                     Ok(Some(Ok(got))) if got.map(|x| x.0) == want && got.map(|x| x.1).unwrap_or(true) => dig.u64(i as u64),
                     other => {
-                        out.violate(format!("big-table:{who}"), format!("70000-symbol {} table: lookup of symbol {} gives {:?}, ground truth {:?}", enc.name(), i, other.map(|o| o.map(|r| r.map(|g| g.map(|x| x.0)))), want));
+                        out.violate(format!("big-table:{who}"), format!("70000-symbol {} table with {} buckets: lookup of symbol {} gives {:?}, ground truth {:?}", enc.name(), nb, i, other.map(|o| o.map(|r| r.map(|g| g.map(|x| x.0)))), want));
                         return;
                     }
                 }
+            }
             }
             out.nontrivial(dig.get() ^ idx);
             return;
@@ -596,7 +662,7 @@ pub fn build_c11(tier: Tier) -> CheckDef {
         rule: "small-scope exhaustive enumeration of well-formed .gnu.hash tables produced by a reference builder (every subset of the name universe x every parameter combination) with linear-scan ground truth for every looked-up name; soundness on every single-word deviation and (in C01/C16) on all short word strings; gnu_hash against the djb2 reference on complete string sets. non-trivial = table in which at least one lookup hits".into(),
         assumptions: vec!["completeness is demanded only of builder-made tables (linker-made tables legitimately omit symbols); samples get soundness + agreement with the reference algorithm".into()],
         spaces: vec![
-            Box::new(Complete { gnu: true, usize_: tier.pick(7, 10), shifts, nbuckets: tier.pick(4, 6), blooms: if tier == Tier::Quick { vec![1, 2, 4] } else { vec![1, 2, 4, 8, 64] } }),
+            Box::new(Complete { gnu: true, usize_: tier.pick(8, 12), shifts, nbuckets: tier.pick(4, 6), blooms: if tier == Tier::Quick { vec![1, 2, 4] } else { vec![1, 2, 4, 8, 64] } }),
             Box::new(Deviated { gnu: true }),
             Box::new(Mismatched { gnu: true }),
             Box::new(HashFn { gnu: true, long: tier == Tier::Thorough }),
@@ -606,7 +672,7 @@ pub fn build_c11(tier: Tier) -> CheckDef {
         abort_is_violation: false,
         hang_is_violation: true,
         exhaustive: true,
-        bounds: json!({"universe": tier.pick(7, 10), "nbucket": tier.pick("1..4", "1..6"), "bloom_words": tier.pick("1,2,4", "1,2,4,8,64"), "symoffset": "1..3", "shifts": tier.pick("0,5,6,31", "0..31")}),
+        bounds: json!({"universe": tier.pick(8, 12), "nbucket": tier.pick("1..4", "1..6"), "bloom_words": tier.pick("1,2,4", "1,2,4,8,64"), "symoffset": "1..3", "shifts": tier.pick("0,5,6,31", "0..31")}),
     }
 }
 
@@ -617,7 +683,7 @@ pub fn build_c12(tier: Tier) -> CheckDef {
         rule: "small-scope exhaustive enumeration of well-formed .hash tables produced by a reference builder (every subset of the name universe x nbucket x encoding) with linear-scan ground truth for every looked-up name; soundness on every single-word deviation and (in C01/C16) on all short word strings / all functional chain graphs; sysv_hash against the gABI elf_hash reference on complete string sets. non-trivial = table in which at least one lookup hits".into(),
         assumptions: vec!["completeness is demanded only of builder-made tables; samples get soundness + agreement with the reference algorithm".into()],
         spaces: vec![
-            Box::new(Complete { gnu: false, usize_: tier.pick(9, 10), shifts: vec![0], nbuckets: tier.pick(4, 8), blooms: vec![1] }),
+            Box::new(Complete { gnu: false, usize_: tier.pick(9, 12), shifts: vec![0], nbuckets: tier.pick(4, 8), blooms: vec![1] }),
             Box::new(Deviated { gnu: false }),
             Box::new(Mismatched { gnu: false }),
             Box::new(HashFn { gnu: false, long: tier == Tier::Thorough }),
@@ -627,6 +693,6 @@ pub fn build_c12(tier: Tier) -> CheckDef {
         abort_is_violation: false,
         hang_is_violation: true,
         exhaustive: true,
-        bounds: json!({"universe": tier.pick(9, 10), "nbucket": tier.pick("1..4", "1..8")}),
+        bounds: json!({"universe": tier.pick(9, 12), "nbucket": tier.pick("1..4", "1..8")}),
     }
 }
